@@ -206,7 +206,7 @@ def run(tier, seed):
     pool = RunnerPool()
     rng = ck.rng
     big = tier == "thorough"
-    NR = 120 if not big else 500
+    NR = 60 if not big else 400
     EXH = "1" if big else "0"
     T0 = time.time()
 
@@ -258,7 +258,9 @@ def run(tier, seed):
             fail(text, {"impl_observation": g[:2]}, ["crash"])
             ck.count(text, False)
             continue
-        expect = m_exp.split(" ")[1:] if m_exp.startswith("ok") else None
+        expect = [t for t in m_exp.split(" ")[1:] if t != "chain"] if m_exp.startswith("ok") else None
+        meta["chain"] = m_exp.startswith("ok") and "chain" in m_exp.split(" ")
+        meta["ext_not"] = any(it[0] == "ext" and ":not(" in it[2] for it in items)
         # ---- errors the property demands
         if expect:
             ck.hist("expected-error:" + "+".join(expect))
@@ -310,24 +312,29 @@ def run(tier, seed):
         d = driver_items(items)
         mode = "sub" if meta["complex_extender"] else "iff"
         rewritten = False
+        extenders = " ".join(H(it[2]) for it in items if it[0] == "ext")
         for rid in ids:
             gs = found.get(rid, (None,))[0]
             S = originals[rid]
             if gs is not None and " ".join(gs.split()) != " ".join(S.split()):
                 rewritten = True
-            if mode == "sub" and meta["has_not"]:
+            if meta["ext_not"]:
+                # an extender that negates (`:not(..)`) makes "credited" non-monotone: not judged
+                ck.hist("direct:extender-with-:not(not judged)")
+            elif mode == "sub" and meta["has_not"]:
                 ck.hist("direct:complex-extender-under-not(not judged)")
             else:
-                follow.append(f"ext credited {mode} {seed * 59 + n} {NR} {EXH} {H(S)} {H(gs) if gs else '-'} {d}")
-                fmeta.append((mode, n, rid, gs, S))
-            if not meta["has_not"]:
-                follow.append(f"ext credited law {seed * 61 + n} {NR} 0 {H(S)} {H(gs) if gs else '-'} {d}")
-                fmeta.append(("law", n, rid, gs, S))
+                follow.append(f"ext credited sub {seed * 59 + n} {NR} {EXH} {H(S)} {H(gs) if gs else '-'} {d}")
+                fmeta.append(("sub", n, rid, gs, S))
+                if mode == "iff":
+                    follow.append(f"ext credited sup {seed * 59 + n} {NR} {EXH} {H(S)} {H(gs) if gs else '-'} {d}")
+                    fmeta.append(("sup", n, rid, gs, S))
+                elif not meta["has_not"]:
+                    follow.append(f"ext credited law {seed * 61 + n} {NR} 0 {H(S)} {H(gs) if gs else '-'} {d}")
+                    fmeta.append(("law", n, rid, gs, S))
             if gs is not None:
-                for it in items:
-                    if it[0] == "ext":
-                        follow.append(f"ext specific {H(it[2])} {H(gs)}")
-                        fmeta.append(("specific", n, rid, gs, it[2]))
+                follow.append(f"ext specific {H(S)} {H(gs)} {extenders}")
+                fmeta.append(("specific", n, rid, gs, S))
             # order independence: the same rule in the reversed stylesheet
             if sw[0] == "ok":
                 gs2 = sw[1].get(rid, (None,))[0]
@@ -354,7 +361,7 @@ def run(tier, seed):
     for (what, n, rid, a, b), ans in zip(fmeta, fouts):
         text = texts[n]
         if ans.startswith("ok holds"):
-            if what in ("iff", "sub") and int(ans.split(" ")[3]) > 0:
+            if what in ("sup", "sub") and int(ans.split(" ")[3]) > 0:
                 judged[n] = True
             continue
         if ans == "ok 1":
@@ -365,13 +372,14 @@ def run(tier, seed):
         if what == "tie":
             disagree({"case": text, "rule": rid, "impl_observation": a, "model_observation": b,
                       "differing_context": dec(ans)})
-        elif what in ("iff", "sub", "law"):
-            why = {"iff": "rewritten selector and credited original differ", "sub": "rewritten selector matches a context the credited original does not",
+        elif what in ("sup", "sub", "law"):
+            why = {"sup": "the credited original matches a context the rewritten selector does not (extension matches too little)",
+                   "sub": "the rewritten selector matches a context the credited original does not (extension matches too much)",
                    "law": "original selector matches a context the rewritten one does not (first law)"}[what]
             fail(text, {"rule": rid, "original": b, "impl_observation": a, "context": dec(ans), "why": why},
-                 [{"iff": "credited-iff", "sub": "credited-subset", "law": "first-law"}[what]])
+                 [{"sup": "too-little", "sub": "too-much", "law": "first-law"}[what]])
         elif what == "specific":
-            fail(text, {"rule": rid, "impl_observation": a, "extender": b, "why": "generated selector less specific than its extender"},
+            fail(text, {"rule": rid, "impl_observation": a, "original": b, "why": "a generated complex is less specific than every extender"},
                  ["specificity"])
         elif what == "order":
             fail(text, {"rule": rid, "impl_observation": a, "reversed_order": b, "context": dec(ans),
@@ -380,13 +388,28 @@ def run(tier, seed):
         if impl[n][0] == "ok" and not outs[2 * n + 1].split(" ")[1:]:
             ck.count(text, bool(meta.get("rewritten")) and judged.get(n, False))
 
-    # S1 reaching trim: tag failures that disappear when the model trims with the specified walk
-    s1 = []
+    # class tags of the two known multi-extension deviations (computed, not guessed):
+    #   X1: the stylesheet has an extension chain (a target occurs in an extender) and the failure is a missing match / an order difference
+    #   X2: no chain, >= 2 extensions, the Lean model of the incremental algorithm (as found) reproduces grass's selectors exactly
+    #       (tie verified below), and the failure is a missing match / an order difference
+    tie_ok = {}
+    for (what, n, rid, a, b), ans in zip(fmeta, fouts):
+        if what == "tie":
+            tie_ok[n] = tie_ok.get(n, True) and ans.startswith("ok holds")
+    index_of = {t: k for k, t in enumerate(texts)}
     for i, (_, case, payload, tags) in enumerate(failing):
-        if tags and tags[0] in ("credited-iff", "credited-subset", "first-law", "order"):
-            n = texts.index(case) if case in texts else -1
-            if n >= 0:
-                s1.append((i, n))
+        n = index_of.get(case, -1)
+        if n < 0 or not tags or tags[0] not in ("too-little", "order"):
+            continue
+        meta = sheets[n][1]
+        if meta.get("chain"):
+            tags.append("X1")
+        elif meta["n_ext"] >= 2 and outs[2 * n].startswith("ok") and tie_ok.get(n, False):
+            tags.append("X2")
+        payload["tags"] = tags
+    # S1 reaching trim: a failure that disappears when the model trims with the specified walk
+    s1 = [(i, index_of[case]) for i, (_, case, payload, tags) in enumerate(failing)
+          if case in index_of and tags and tags[0] in ("too-little", "first-law", "order") and "X1" not in tags]
     if s1:
         extra = driver(["ext run 1 1 0 " + driver_items(sheets[n][0]) for _, n in s1])
         for (i, n), spec_run in zip(s1, extra):
@@ -406,6 +429,10 @@ def run(tier, seed):
     for _, _, _, tags in failing:
         key = ",".join(tags) or "untagged"
         ck.cov["failing_cases_by_tag"][key] = ck.cov["failing_cases_by_tag"].get(key, 0) + 1
+    ck.cov["failing_samples_unattributed"] = [
+        {"case": c, "tags": t, "why": p.get("why"), "rule": p.get("rule"), "impl": str(p.get("impl_observation"))[:300],
+         "context": p.get("context"), "reversed": p.get("reversed_order"), "extender": p.get("extender")}
+        for _, c, p, t in failing if not set(t) & {"D16", "D18"}][:80]
     ck.cov["failing_samples"] = [{"case": c, "tags": t, "why": p.get("why"), "rule": p.get("rule"), "impl": str(p.get("impl_observation"))[:160],
                                   "context": p.get("context")} for _, c, p, t in failing[:40]]
     if ck.cov["model_disagreements"] and not reported:
